@@ -192,6 +192,15 @@ def stack_split_orbit(perm_id):
             back = flodym_array_stack(list(parts.values()), U.dim(l))
             if label_dict(U, back)[1] != base or list(back.dims.letters) != [d for d in ds if d != l] + [l]:
                 problems.append(f"{{C04}} [stack] dims {ds}: stack(split({l!r})) is not the array (by label) over {[d for d in ds if d != l] + [l]}")
+            # the parts after the first stored in ANOTHER dimension order (same labelled content): the stack is the same by label
+            rest = [d for d in ds if d != l]
+            if len(rest) >= 2:
+                plist = list(parts.values())
+                turned = [plist[0]] + [p.cast_to(U.dimset(rest[::-1])) for p in plist[1:]]
+                back2 = flodym_array_stack(turned, U.dim(l))
+                if label_dict(U, back2)[1] != base:
+                    problems.append(f"{{C04}} [stack] dims {ds}: stacking parts that store their dimensions in different orders "
+                                    f"({rest} and {rest[::-1]}) gives other entries by label")
         except Exception as e:
             problems.append(f"{{C04}} [stack/split] dims {ds}, letter {l!r}: raised {type(e).__name__}: {str(e)[:120]}")
     return problems
